@@ -89,7 +89,7 @@ def r1_order(ctx, rep, R='C14.R1'):
     rep.check(not bad, R, 'after sorting, the directory list is only filtered',
               'the directory list is reordered after sorting: %s' % bad, key='walk:reorder',
               func=fw.qualname, where=ctx.where(fw, lp.stmt))
-    ff = m.func('find.find_test_files_')
+    ff = walker_fn(ctx)
     ysf = [n for n in ast.walk(ff.node) if isinstance(n, ast.Yield)]
     oky = bool(ysf)
     for y in ysf:
@@ -122,12 +122,55 @@ def r1_order(ctx, rep, R='C14.R1'):
               where=ctx.where(ff, ff.node))
 
 
+
+def walker_fn(ctx):
+    """the generator that walks the search directories and yields (file, package): found by what it
+    does (iterates walk_with_symlinks(...) and yields), not by its name"""
+    from sa.srcmodel import AnchorVanished
+    m = ctx.model
+    mod = m.func('find.find_suites').module
+    cands = []
+    for q, fi in mod.functions.items():
+        if fi.name in ('walk_with_symlinks', 'remove_stale_bytecode') or '.' in q:
+            continue
+        if any(isinstance(n, ast.For) and isinstance(n.iter, ast.Call) and
+               (call_name(n.iter) == 'walk_with_symlinks' or dotted(n.iter.func) == 'os.walk')
+               for n in ast.walk(fi.node)) and \
+                any(isinstance(n, ast.Yield) for n in ast.walk(fi.node)):
+            cands.append(fi)
+    if len(cands) != 1:
+        raise AnchorVanished('the generator of find.py that walks the search directories with '
+                             'walk_with_symlinks and yields test files (found %d)' % len(cands))
+    return cands[0]
+
+
+def file_source_fn(ctx):
+    """the function find_suites takes its (file, package) pairs from"""
+    fs = ctx.model.func('find.find_suites')
+    for n in ast.walk(fs.node):
+        if isinstance(n, ast.For) and isinstance(n.iter, ast.Call) and isinstance(n.target, ast.Tuple) \
+                and len(n.target.elts) == 2:
+            q = 'find.' + (call_name(n.iter) or '')
+            try:
+                return ctx.model.func(q)
+            except Exception:
+                continue
+    return None
+
+
 def r2_once(ctx, rep, R='C14.R2'):
     rep.rule(R, 'once: find_test_files yields a path only if it was not seen before (keyed by the '
              'path) and records it as seen')
-    fi = ctx.model.func('find.find_test_files')
+    fi = file_source_fn(ctx) or ctx.model.func('find.find_test_files')
+    wk = walker_fn(ctx)
     ys = [n for n in ast.walk(fi.node) if isinstance(n, ast.Yield)]
-    ok = len(ys) == 1
+    ok = len(ys) == 1 and fi is not wk
+    if fi is wk:
+        rep.bad(R, 'find_suites takes its files straight from the directory walk (%s)' % wk.qualname,
+                'no de-duplication by path between the walk over the search directories and the loading '
+                'of the files: with overlapping or nested search paths a test file is yielded (and its '
+                'module loaded, its tests run) more than once', key='once:missing', func=wk.qualname,
+                where=ctx.where(wk, wk.node))
     if ok:
         from .common import guard_literals
         y = ys[0]
@@ -139,7 +182,7 @@ def r2_once(ctx, rep, R='C14.R2'):
         # the key is the path alone: the loop over the inner generator unpacks (path, package)
         # and the first of the two names is what is tested and recorded
         loops = [n for n in ast.walk(fi.node) if isinstance(n, ast.For) and isinstance(n.iter, ast.Call)
-                 and call_name(n.iter) == 'find_test_files_']
+                 and call_name(n.iter) == wk.name]
         keyed_by_path = len(loops) == 1 and isinstance(loops[0].target, ast.Tuple) and \
             len(loops[0].target.elts) == 2 and norm(loops[0].target.elts[0]) == key
         if ok and not keyed_by_path:
@@ -163,8 +206,8 @@ def r2_once(ctx, rep, R='C14.R2'):
               key='once', func=fi.qualname, where=ctx.where(fi, fi.node))
     fs = ctx.model.func('find.find_suites')
     src = [n for n in ast.walk(fs.node) if isinstance(n, ast.For) and isinstance(n.iter, ast.Call)
-           and call_name(n.iter) in ('find_test_files', 'find_test_files_')]
-    rep.check(len(src) == 1 and call_name(src[0].iter) == 'find_test_files', R,
+           and call_name(n.iter) in ('find_test_files', wk.name)]
+    rep.check(len(src) == 1 and call_name(src[0].iter) == fi.name and fi is not wk, R,
               'find_suites consumes the de-duplicated find_test_files',
               'find_suites iterates %s' % [norm(n.iter) for n in src], key='once:consumer',
               func=fs.qualname, where=ctx.where(fs, fs.node))
@@ -232,7 +275,7 @@ def r4_pruning(ctx, rep, R='C14.R4'):
              'directories whose name is an identifier and not in IGNORE_FOLDERS; walk_with_symlinks '
              'removes options.ignore_dir in place before it yields')
     m = ctx.model
-    ff = m.func('find.find_test_files_')
+    ff = walker_fn(ctx)
     g = ctx.cfg(ff)
     lp, names = _walk_loop(ctx, ff, g)
     ok = False
